@@ -264,6 +264,17 @@ func init() {
 			},
 		},
 		propCheck{
+			ID: "C42", Level: "exploration",
+			Rule: "one evaluation = one simulated history of 2-3 sessions (one of them without autocommit in a quarter of the runs) over a writable database (tables, a view, a trigger, writing / reading / branching procedures) beside a memory.ReadOnlyDatabase: the tape decides who runs, when the engine's ReadOnly flag flips, when a session starts / ends a READ ONLY or READ WRITE transaction and which of ~75 statement shapes it issues (reads incl. views, joins with the read-only database, SELECT .. FOR UPDATE / INTO @v, SHOW, EXPLAIN, PREPARE; INSERT / INSERT..SELECT / ON DUPLICATE KEY / REPLACE / UPDATE / UPDATE JOIN / DELETE / TRUNCATE, writes through a trigger, CALL, EXECUTE of a prepared write; CREATE / DROP / ALTER / RENAME of tables, columns, indexes, views, triggers, procedures, databases; the same against the read-only database); oracles after every statement: under a read-only mode the committed state (digest of all schemas, rows, views, triggers, procedures, databases, read by an observer) is unchanged, a write or schema statement is refused, a read succeeds with the result it has outside the mode; outside every mode no statement is refused with a read-only error; ending a READ ONLY transaction changes nothing; non-trivial = every run; distinct = distinct hash of the action/outcome sequence",
+			Real: []string{"engine.readOnlyCheck and every plan node's IsReadOnly", "analyzer validateReadOnlyDatabase / validateReadOnlyTransaction", "START TRANSACTION / COMMIT / ROLLBACK execution, transaction committing iterator, procedure interpreter", "memory.ReadOnlyDatabase, memory session transactions"},
+			Stub: []string{"session scheduling at statement granularity", "the integrator flipping Engine.ReadOnly (done by the simulator between transactions)"},
+			Assumptions: []string{"the in-memory backend has no temporary tables: the temporary-table exception of READ ONLY transactions is not exercised", "CALL of a SQL routine that does not write may be refused under the engine flag (the engine declares every SQL routine as possibly writing); inside a READ ONLY transaction it must run", "the engine flag flips only while no transaction has pending work; DDL outside the modes runs between transactions (implicit commits are C17's subject)", "results of reads are compared with the observer's only while no other session committed since the reader's transaction began (the backend has no isolation between overlapping transactions)"},
+			Subs: []subCheck{
+				{ID: "C42", World: "sqlsim", Quick: 4000, Thorough: 200000, QuickCap: 90, ThoroughCap: 1500, GC: "100",
+					Probes: []string{}},
+			},
+		},
+		propCheck{
 			ID: "C20", Level: "exploration",
 			Rule: "one evaluation = one simulated history on a table with an AUTO_INCREMENT primary key (INT / BIGINT / INT UNSIGNED / TINYINT UNSIGNED, optional UNIQUE key for failing inserts): multi-row inserts mixing NULL / 0 / omitted / explicit ids (above the maximum, unused below it, existing), inserts failing at a drawn row, injected storage errors, deletes of the maximum row and of everything, ALTER TABLE .. AUTO_INCREMENT = n below and above the maximum, BEGIN/COMMIT/ROLLBACK, session drops, 1-2 sessions with never-overlapping writers; oracle: every generated and stored value is unique among all generated values ever stored, greater than every value stored before the statement, increasing inside a statement; OkResult.InsertID and LAST_INSERT_ID() = first generated value of the session's last successful generating insert, unchanged by failed inserts and by other sessions; non-trivial = 2 sessions or a fault fired; distinct = distinct hash of the action/outcome sequence",
 			Real: []string{"insert iterator auto-increment handling, accumulator OK result", "memory table editor auto-increment counter, ALTER TABLE AUTO_INCREMENT"},
